@@ -27,9 +27,13 @@ fn show(r: &Result<Unifiable, String>) -> String {
     match r { Ok(t) => ser(&strip_ids(t)), Err(_) => "error".to_string() }
 }
 
-pub const CONTEXTS: [&str; 9] = ["argument", "argument_2_of_3", "builtin_argument", "query_argument", "list_element", "list_element_2_of_2", "unify_right", "compare_left", "arith_right"];
+pub const CONTEXTS: [&str; 22] = ["argument", "argument_2_of_3", "builtin_argument", "query_argument", "list_element", "list_element_2_of_2", "unify_right", "compare_left", "arith_right",
+    // with a sibling that sets each piece of the scanning state (digits, a period, quotation marks, brackets) before or after the text
+    "argument_after_float", "argument_after_quoted", "argument_after_int", "argument_after_list", "argument_before_float", "argument_before_quoted",
+    "builtin_argument_after_float", "query_argument_after_float", "query_argument_before_quoted",
+    "list_element_after_float", "list_element_before_quoted", "list_element_before_tail", "list_element_middle"];
 
-fn is_argument_context(ctx: &str) -> bool { matches!(ctx, "argument" | "argument_2_of_3" | "builtin_argument" | "query_argument") }
+fn is_argument_context(ctx: &str) -> bool { ctx.starts_with("argument") || ctx.starts_with("builtin_argument") || ctx.starts_with("query_argument") }
 
 /// the term that comes out of `text` written in the context
 fn in_context(ctx: &str, text: &str) -> Result<Unifiable, String> {
@@ -58,7 +62,41 @@ fn in_context(ctx: &str, text: &str) -> Result<Unifiable, String> {
             o => Err(format!("not a comparison: {:?}", o)) },
         "arith_right" => match parse_term(&format!("$Q * {}", text))? {
             Unifiable::SFunction { name, terms } if name == "multiply" => nth(&terms, 1, 2), o => Err(format!("not a product: {:?}", o)) },
+        "argument_after_float" => match parse_complex(&format!("f(2.5, {})", text))? { Unifiable::SComplex(ts) => nth(&ts, 2, 3), o => Err(format!("not a complex term: {:?}", o)) },
+        "argument_after_quoted" => match parse_complex(&format!("f(\"q r\", {})", text))? { Unifiable::SComplex(ts) => nth(&ts, 2, 3), o => Err(format!("not a complex term: {:?}", o)) },
+        "argument_after_int" => match parse_complex(&format!("f(7, {})", text))? { Unifiable::SComplex(ts) => nth(&ts, 2, 3), o => Err(format!("not a complex term: {:?}", o)) },
+        "argument_after_list" => match parse_complex(&format!("f([1.5, \"q\"], {})", text))? { Unifiable::SComplex(ts) => nth(&ts, 2, 3), o => Err(format!("not a complex term: {:?}", o)) },
+        "argument_before_float" => match parse_complex(&format!("f({}, 2.5)", text))? { Unifiable::SComplex(ts) => nth(&ts, 1, 3), o => Err(format!("not a complex term: {:?}", o)) },
+        "argument_before_quoted" => match parse_complex(&format!("f({}, \"q r\")", text))? { Unifiable::SComplex(ts) => nth(&ts, 1, 3), o => Err(format!("not a complex term: {:?}", o)) },
+        "builtin_argument_after_float" => match parse_subgoal(&format!("print_list(2.5, {})", text))? {
+            Goal::BuiltInGoal(b) => match &b.terms { Some(ts) => nth(ts, 1, 2), None => Err("no terms".into()) },
+            o => Err(format!("not a built-in: {:?}", o)) },
+        "query_argument_after_float" => match parse_query(&format!("f(2.5, {})", text))? {
+            Goal::ComplexGoal(Unifiable::SComplex(ts)) => nth(&ts, 2, 3), o => Err(format!("not a complex goal: {:?}", o)) },
+        "query_argument_before_quoted" => match parse_query(&format!("f({}, \"q r\")", text))? {
+            Goal::ComplexGoal(Unifiable::SComplex(ts)) => nth(&ts, 1, 3), o => Err(format!("not a complex goal: {:?}", o)) },
+        "list_element_after_float" => list_nth(&format!("[2.5, {}]", text), 1, 2),
+        "list_element_before_quoted" => list_nth(&format!("[{}, \"q r\"]", text), 0, 2),
+        "list_element_before_tail" => list_nth(&format!("[{} | $Rest]", text), 0, 2),
+        "list_element_middle" => list_nth(&format!("[x, {}, y]", text), 1, 3),
         other => Err(format!("unknown context {}", other)),
+    }
+}
+
+/// the n-th node's term of a parsed list with `count` nodes (a tail variable counts as a node)
+fn list_nth(text: &str, n: usize, count: usize) -> Result<Unifiable, String> {
+    let l = parse_linked_list(text)?;
+    let mut cur = &l;
+    let mut k = 0;
+    loop {
+        match cur {
+            Unifiable::SLinkedList { term, next, count: c, .. } => {
+                if k == 0 && *c != count { return Err(format!("the list was cut into {} nodes instead of {}", c, count)); }
+                if k == n { return Ok((**term).clone()); }
+                cur = next; k += 1;
+            },
+            o => return Err(format!("not a list node: {:?}", o)),
+        }
     }
 }
 
@@ -76,6 +114,7 @@ pub fn texts() -> Vec<String> {
         // lists
         "[]", "[a]", "[a, b]", "[a | $T]", "[[a], b]", "[-3]", "[$X + 1]", "[1, 2.5, \"q\"]",
         // complex terms and functions
+        "city(\"New York\")", "likes(\"Mary Ann\", $X)", "[\"New York\", Toronto]", "route([\"St. John\"], 12)", "g(\"a,b\")", "g([\"x\"])", "[g(\"x\")]",
         "g(a)", "g(a, $X)", "g(h(b))", "g(-3)", "g([a])", "g()", "add(1, 2)", "join(a, b)", "subtract($X, -1)", "multiply(2)", "divide(1, 0)",
         // arithmetic written infix
         "$X + 1", "3 - 2", "$A * $B", "a / b", "$X +1", "$X+ 1", "$X+1", "1 + 2 + 3", "(1 + 2)", "g(1 + 2)", "\"1 + 2\"", "1 +  2", "+ 1", "1 +",
